@@ -97,6 +97,9 @@ func cb(op, a, b string) string {
 func arithmeticFoundations(c *Ctx) {
 	run := c.Run
 	cfgs := []string{"purego", "f32"}
+	if c.Tier == "thorough" {
+		cfgs = []string{"purego", "f32", "f32pure", "386", "arm64"} // every configuration without the amd64 assembly
+	}
 	if !c.Preload(cfgs...) {
 		return
 	}
